@@ -538,7 +538,7 @@ func runC03(p *core.Prog, r *core.Report, tier string) {
 			r.Violate("C03.g", "epochTicker|once-per-epoch", p.Pos(f.Pos()), "the epoch ticker does not test and record the epoch it ran for")
 		} else {
 			held := la.HeldAt(f)
-			r.Check(held[test].HasName("mutex", true) && held[store].HasName("mutex", true), "C03.g", "epochTicker|locked", p.Pos(store.Pos()), "test and record under the ticker's mutex", "latestEpochRan is tested or recorded without the ticker's mutex")
+			r.Check(held[test].HasOwner(ctrlRel+".epochTickerData", true) && held[store].HasOwner(ctrlRel+".epochTickerData", true), "C03.g", "epochTicker|locked", p.Pos(store.Pos()), "test and record under the ticker's mutex", "latestEpochRan is tested or recorded without the ticker's mutex")
 			// no unlock between
 			split := false
 			core.EachInstr(f, func(u ssa.Instruction) {
